@@ -1,7 +1,57 @@
-(* placeholder until the codec theorems land *)
+(* C16 - the export key is stable, separated and never leaves the client.  PARTIAL (DESIGN.md C16):
+   proved: the export key is Expand(randomized_pwd, envelope_nonce || "ExportKey", Nh) at seal and at
+   open, so every successful login returns the registration's export key whatever the context, identities,
+   session randomness or number of earlier logins; the labels that separate it from the other secrets
+   derived under the same key are pairwise different (re-checked against /repo/src on every run).
+   NOT proved: that equal-length fields of other kinds never coincide with a secret at unaligned offsets
+   (a coincidence, not a collision): searched by the battery's substring scan. *)
 From Coq Require Import List.
-From OKE Require Import BytesLemmas.
-Theorem C16_placeholder : forall l x y px py r1 r2,
-  Bytes.lenprefix l x = Some px -> Bytes.lenprefix l y = Some py -> px ++ r1 = py ++ r2 -> x = y /\ r1 = r2.
-Proof. exact lenprefix_inj. Qed.
-Print Assumptions C16_placeholder.
+From OKE Require Import Bytes Suite Generated Hkdf Voprf Messages Envelope TripleDH Opaque Laws Honest Oblivious.
+
+Theorem C16_formula_at_registration :
+  forall E Sc Pk Sk (CS : Suite E Sc Pk Sk) tape rp spk ids env cpk ek rest,
+    envelope_seal CS tape rp spk ids = Ok (env, cpk, ek, rest) ->
+    hkdf_expand (hash CS) rp (env_nonce env ++ STR_EXPORT_KEY) (h_len (hash CS)) = Some ek.
+Proof. exact @export_key_at_seal. Qed.
+Print Assumptions C16_formula_at_registration.
+
+Theorem C16_formula_at_login :
+  forall E Sc Pk Sk (CS : Suite E Sc Pk Sk) env rp spk ids kp ek u s,
+    envelope_open CS env rp spk ids = Ok (kp, ek, u, s) ->
+    hkdf_expand (hash CS) rp (env_nonce env ++ STR_EXPORT_KEY) (h_len (hash CS)) = Some ek.
+Proof. exact @export_key_at_open. Qed.
+Print Assumptions C16_formula_at_login.
+
+Theorem C16_stable_partial :
+  forall E Sc Pk Sk (CS : Suite E Sc Pk Sk) tape rp spk ids env cpk ek rest spk' ids' kp ek' u s,
+    envelope_seal CS tape rp spk ids = Ok (env, cpk, ek, rest) ->
+    envelope_open CS env rp spk' ids' = Ok (kp, ek', u, s) -> ek' = ek.
+Proof. exact @export_key_seal_open. Qed.
+Print Assumptions C16_stable_partial.
+
+(* a whole honest login returns the registration's export key: the [ek] of C01 *)
+Theorem C16_login_returns_registration_export_key :
+  forall E Sc Pk Sk (CS : Suite E Sc Pk Sk), HashLaws (hash CS) -> GroupLaws CS ->
+  forall tape setup t1 pw creg rq t2 cred rr ids ksf upload ek spk t3 clog ke1 t4 ctx slog ke2 t5 dbg,
+    ve CS (o_h2g (oprf CS) pw (dst_hash_to_group (oprf CS))) ->
+    server_setup_new CS tape = Ok (setup, t1) ->
+    client_registration_start CS t1 pw = Ok (creg, rq, t2) ->
+    server_registration_start CS setup rq cred = Ok rr ->
+    client_registration_finish CS creg t2 pw rr ids ksf = Ok (upload, ek, spk, t3) ->
+    client_login_start CS t3 pw = Ok (clog, ke1, t4) ->
+    server_login_start CS (private_key_ops (ke CS)) t4 setup (Some (server_registration_finish upload)) ke1 cred ctx ids
+      = Ok (slog, ke2, t5, dbg) ->
+    o_eqb (oprf CS) (cq_blinded ke1) (cr_eval ke2) = false ->
+    exists ke3 sk dbg',
+      client_login_finish CS clog pw ke2 ctx ids ksf = Ok (ke3, sk, ek, spk, dbg') /\
+      server_login_finish CS slog ke3 = Ok sk /\
+      spk = kp_pk (ss_keypair setup) /\ kp_pk (ss_keypair setup) = k_pub (ke CS) (kp_sk (ss_keypair setup)).
+Proof. exact @honest_login_agrees. Qed.
+Print Assumptions C16_login_returns_registration_export_key.
+
+Theorem C16_labels_separated :
+  STR_AUTH_KEY <> STR_EXPORT_KEY /\ STR_AUTH_KEY <> STR_PRIVATE_KEY /\ STR_EXPORT_KEY <> STR_PRIVATE_KEY /\
+  STR_HANDSHAKE_SECRET <> STR_SESSION_KEY /\ STR_SERVER_MAC <> STR_CLIENT_MAC /\
+  length STR_AUTH_KEY <> length STR_MASKING_KEY /\ length STR_EXPORT_KEY <> length STR_MASKING_KEY.
+Proof. exact generated_labels_separated. Qed.
+Print Assumptions C16_labels_separated.
